@@ -5,6 +5,7 @@ import (
 	"go/ast"
 	"go/token"
 	"go/types"
+	"regexp"
 	"sort"
 	"strings"
 
@@ -34,6 +35,8 @@ var c10OwnedCalls = map[string]bool{"ShallowCopy": true, "Copy": true, "NewPoint
 
 // calls whose result (and the elements of it) is a message tree nothing else references: Begin()/Points() of it are owned, too
 var c10DeepOwnedCalls = map[string]bool{"ResultToBufferedBatches": true, "Decode": true}
+
+var reTrailingIndex = regexp.MustCompile(`\[[^\[\]]*\]$`)
 
 // frozen exceptions, one symbol with one line of reason each
 var c10Exempt = map[string]string{
@@ -370,6 +373,18 @@ func (x *c10Ctx) owned(p *packages.Package, f *core.Func, key string, tnode ast.
 		for _, suf := range []string{".Begin()", ".Points()", "[*]", ".0"} {
 			for strings.HasSuffix(k, suf) {
 				k = strings.TrimSuffix(k, suf)
+			}
+		}
+		// any element of the deep-owned result: x.0[i], x.0[i].Begin() …
+		for changed := true; changed; {
+			changed = false
+			if m := reTrailingIndex.FindString(k); m != "" {
+				k, changed = strings.TrimSuffix(k, m), true
+			}
+			for _, suf := range []string{".Begin()", ".Points()", ".0"} {
+				if strings.HasSuffix(k, suf) {
+					k, changed = strings.TrimSuffix(k, suf), true
+				}
 			}
 		}
 		if strings.HasSuffix(k, ")") && c10DeepOwnedCalls[an.LastCall(k)] {
